@@ -42,10 +42,10 @@ def plan(tier, seed):
     for k in range(nh):
         specs.append(dict(kind='history', order=ORDERS[(seed + k) % 6],
                           sub=k, hashseed=k + 1))
-    nr = 128 if tier == 'thorough' else 8
+    nr = 64 if tier == 'thorough' else 8
     for k in range(nr):
         specs.append(dict(kind='random', sub=k, n=4 + k % 5,
-                          steps=4000 if tier == 'thorough' else 350,
+                          steps=2000 if tier == 'thorough' else 350,
                           auto=(k % 4 == 3), hashseed=k))
     meta = dict(
         rule=RULE,
